@@ -27,7 +27,11 @@ if [ ! -x "$WORK/target/release/vcheck" ] || grep -q '^error' "$WORK/build.log";
   echo "MACHINERY-FAILURE: harness does not build against $REPO"
   exit 2
 fi
-"$WORK/target/release/vcheck" "$PROP" --tier "$TIER" "$@"
+if [ "$PROP" = crosscheck ]; then
+  "$WORK/target/release/vcheck" crosscheck "$TIER"
+else
+  "$WORK/target/release/vcheck" "$PROP" --tier "$TIER" "$@"
+fi
 rc=$?
 if [ $rc -ne 0 ] && [ $rc -ne 1 ] && [ $rc -ne 2 ]; then
   echo "MACHINERY-FAILURE: vcheck died with status $rc"
